@@ -203,6 +203,8 @@ type streamGRPC struct {
 	ctx             context.Context
 	done            <-chan struct{} // ctx.Done()
 	wg              sync.WaitGroup
+	mu              sync.Mutex // guards closed; orders wg.Add before wg.Wait
+	closed          bool       // the serving function has begun to wait for the stream operations
 	handler         *handler
 	codec           Codec      // both read and write
 	comp            Compressor // both read and write
@@ -214,6 +216,28 @@ type streamGRPC struct {
 	contentType     string
 	messageEncoding string
 	sentHeader      bool
+}
+
+// enter registers a stream operation with the barrier the serving function
+// waits on before it returns. A goroutine the handler left behind may still
+// call a stream method at that moment; WaitGroup.Add must not run concurrently
+// with Wait, so once the wait has begun the operation is refused instead.
+func (s *streamGRPC) enter() error {
+	s.mu.Lock()
+	defer s.mu.Unlock()
+	if s.closed {
+		return status.FromContextError(context.Canceled).Err()
+	}
+	s.wg.Add(1)
+	return nil
+}
+
+// close refuses further stream operations and waits for the ones in flight.
+func (s *streamGRPC) close() {
+	s.mu.Lock()
+	s.closed = true
+	s.mu.Unlock()
+	s.wg.Wait()
 }
 
 func (s *streamGRPC) isDone() error {
@@ -233,7 +257,9 @@ func (s *streamGRPC) SetHeader(md metadata.MD) error {
 	return nil
 }
 func (s *streamGRPC) SendHeader(md metadata.MD) error {
-	s.wg.Add(1)
+	if err := s.enter(); err != nil {
+		return err
+	}
 	defer s.wg.Done()
 
 	if err := s.isDone(); err != nil {
@@ -297,7 +323,9 @@ func (s *streamGRPC) compress(dst *bytes.Buffer, b []byte) error {
 }
 
 func (s *streamGRPC) SendMsg(m interface{}) error {
-	s.wg.Add(1)
+	if err := s.enter(); err != nil {
+		return err
+	}
 	defer s.wg.Done()
 
 	if err := s.isDone(); err != nil {
@@ -388,7 +416,9 @@ func (s *streamGRPC) decompress(dst *bytes.Buffer, b []byte) error {
 }
 
 func (s *streamGRPC) RecvMsg(m interface{}) error {
-	s.wg.Add(1)
+	if err := s.enter(); err != nil {
+		return err
+	}
 	defer s.wg.Done()
 
 	if err := s.isDone(); err != nil {
@@ -606,7 +636,7 @@ func (m *Mux) serveGRPC(w http.ResponseWriter, r *http.Request) {
 	// Sync handler return to stream methods.
 	defer func() {
 		cancel()
-		stream.wg.Wait()
+		stream.close()
 	}()
 
 	herr := hd.handler(&m.opts, stream)
